@@ -241,7 +241,7 @@ static void run(void)
 	if (mode == 0) {
 		sim_probe(P_MODE_THR);
 		simrt_mode(SIMRT_THR);
-		simrt_races(true);
+		simrt_races(races);	/* the race detector decides C07 only; elsewhere the functional oracles must see the consequences */
 		simrt_strategy(strat, sparam);
 		if (strat == SIMRT_STRAT_STALL)
 			sim_fault(F_STALL);
